@@ -32,6 +32,22 @@ fn same_bytes<T: FixedSize, const S: usize>(item: &T, src: &[u8]) -> bool {
     true
 }
 
+/// SIZE == oracle, write produces SIZE bytes, read consumes SIZE bytes
+fn size_check<T: FixedSize, const S: usize>() {
+    assert!(T::SIZE as usize == S);
+    let src: [u8; S] = kani::any();
+    let mut rc = scursor::ReadCursor::new(&src);
+    let item = match T::read(&mut rc) {
+        Ok(x) => x,
+        Err(_) => panic!("SIZE bytes must be enough to read one object"),
+    };
+    assert!(rc.position() == S);
+    let mut out = [0u8; 20];
+    let mut wc = WriteCursor::new(&mut out);
+    assert!(item.write(&mut wc).is_ok());
+    assert!(wc.position() == S);
+}
+
 fn non_read_function() -> FunctionCode {
     // the functions that carry object data in this library's grammar; the parser only distinguishes READ / non-READ
     if kani::any() { FunctionCode::Response } else { FunctionCode::Write }
